@@ -53,7 +53,7 @@ theorem imm_4 : imm64 4 % 256 = 4 := by decide +kernel
 set_option maxRecDepth 100000 in
 set_option maxHeartbeats 1000000 in
 theorem rb_spec (vl V t0 t1 : Nat) (hvl : validVl vl = true)
-    (hinst : (V = 19 ∧ t0 = 1 ∧ t1 = 2) ∨ (V = 21 ∧ t0 = 1 ∧ t1 = 2) ∨ (V = 20 ∧ t0 = 0 ∧ t1 = 1))
+    (hinst : (V ∈ [19, 21, 14] ∧ t0 = 1 ∧ t1 = 2) ∨ (V ∈ [20, 6, 7, 8, 9] ∧ t0 = 0 ∧ t1 = 1))
     (s : State) (hV : s.vec.length = 32)
     (h22 : vreg s 22 = AND64) (h23 : vreg s 23 = LOW4) (h24 : vreg s 24 = HIGH4) :
     ∃ s', execList (rbCode vl V t0 t1) s = .ok s' ∧ VecOnly V s s' ∧ vreg s' V < 2 ^ (8 * vl) ∧
@@ -63,7 +63,8 @@ theorem rb_spec (vl V t0 t1 : Nat) (hvl : validVl vl = true)
   obtain ⟨b0, b1, b2, b3, b4, b5, b6, b7, b8, b9, b10, b11, b12, b13, b14, b15, b16, b17, b18, b19, b20, b21, b22, b23, b24, b25, b26, b27, b28, b29, b30, b31, rfl⟩ := list32 vec hV
   simp only [vreg, List.getD_cons_succ, List.getD_cons_zero] at h22 h23 h24
   subst h22 h23 h24
-  rcases hinst with ⟨rfl, rfl, rfl⟩ | ⟨rfl, rfl, rfl⟩ | ⟨rfl, rfl, rfl⟩
+  simp only [List.mem_cons, List.not_mem_nil, or_false] at hinst
+  rcases hinst with ⟨rfl | rfl | rfl, rfl, rfl⟩ | ⟨rfl | rfl | rfl | rfl | rfl, rfl, rfl⟩
   all_goals
     apply Exists.intro
     apply And.intro
